@@ -1507,23 +1507,31 @@ static void lin3_frame(const FrameCase &c, pbt::Ctx &ctx)
     const L tolU = 2 * rsqrtFloor<S>() + 8 * eps / sn;
     RV<3> dx{{F.m[0][0], F.m[1][0], F.m[2][0]}}, dy{{F.m[0][1], F.m[1][1], F.m[2][1]}}, dz{{F.m[0][2], F.m[1][2], F.m[2][2]}};
     PBT_ASSERT_MSG(exactEq(dz, n), nm << ".frame(N,up): vz must be N itself");
-    CHKVU(ST(nm + ".frame(N,up):dx=up x N"), dx, dxw, tolU);
-    CHKVU(ST(nm + ".frame(N,up):dy=N x dx"), dy, vcross(n, dxw), tolU);
+    CHKVU(DY(nm + ".frame(N,up):dx=up x N"), dx, dxw, tolU);
+    CHKVU(DY(nm + ".frame(N,up):dy=N x dx"), dy, vcross(n, dxw), tolU);
     CHKMU(ST(nm + ".frame(N,up):orthonormal"), rmul(rtrans(F), F), rident<3>(), 4 * tolU);
     CHK(ST(nm + ".frame(N,up):right-handed det=+1"), rdet(F), 1, 6 * tolU);
     PBT_ASSERT_MSG(vdot(dy, up) > 0, nm << ".frame(N,up): dy must point to the side of up");
   } else {
     ctx.label("frame(N,up): at the 0.99 threshold (either definition accepted)");
+    // |dot(up,N)| is within 8 eps of 0.99f: the comparison evaluated in T may fall on either side, so the result must be
+    // one of the two definitions (decided on dx, then checked completely)
     RV<3> dx{{F.m[0][0], F.m[1][0], F.m[2][0]}};
-    RV<3> dxw = vscale(cr, 1 / sn);
+    RV<3> dxw = vscale(cr, 1 / sn), dxf = frameN_want(F);
     const L tolU = 2 * rsqrtFloor<S>() + 8 * eps / sn;
-    bool isReg = true;
-    for (int i = 0; i < 3; ++i)
-      isReg = isReg && ratio_of(dx[i], dxw[i], tolU) <= 1.0;
-    if (isReg) {
-      CHKVU(ST(nm + ".frame(N,up):dx=up x N"), dx, dxw, tolU);
-    } else
-      check_frame(nm + ".frame(N,up):fallback", F, frameN_want(F));
+    double rReg = 0, rFb = 0;
+    for (int i = 0; i < 3; ++i) {
+      rReg = std::max(rReg, ratio_of(dx[i], dxw[i], tolU));
+      rFb = std::max(rFb, ratio_of(dx[i], dxf[i], tol));
+    }
+    if (rFb <= 1.0 || rFb <= rReg)
+      check_frame(nm + ".frame(N,up):fallback", F, dxf);
+    else {
+      RV<3> dy{{F.m[0][1], F.m[1][1], F.m[2][1]}}, dz{{F.m[0][2], F.m[1][2], F.m[2][2]}};
+      PBT_ASSERT_MSG(exactEq(dz, n), nm << ".frame(N,up): vz must be N itself");
+      CHKVU(DY(nm + ".frame(N,up):dx=up x N"), dx, dxw, tolU);
+      CHKVU(DY(nm + ".frame(N,up):dy=N x dx"), dy, vcross(n, dxw), tolU);
+    }
   }
 }
 
@@ -2597,7 +2605,10 @@ static void quat_slerp(const SlerpCase &c, pbt::Ctx &ctx)
   // which branch the implementation takes is decided with d computed in T (error <= 2 eps): classes with margin
   const bool fallback = fabsl(d) > 0.9995L;
   const bool nearThr = fabsl(fabsl(d) - 0.9995L) <= 1e-5L;
-  const bool ambiguousSign = d != 0 && fabsl(d) <= 16 * eps;  // a.b ~ 0: both arcs are "the shorter one"
+  // a.b ~ 0: both arcs are "the shorter one".  The implementation decides with d evaluated in T (error <= 2 eps sum|terms|,
+  // which can turn an exact 0 into +-1e-17); when every product is 0 the evaluation is exact and nothing is ambiguous.
+  const L dterms = qdot(qabs(a), qabs(b));
+  const bool ambiguousSign = dterms > 0 && fabsl(d) <= 16 * eps * dterms;
   ctx.nt(allNonZero(a) && allNonZero(b) && tf > 0 && tf < 1);
   ctx.label(flip ? "obtuse: sign flip" : "acute: no flip");
   ctx.label(fallback ? "near-parallel: lerp fallback" : "regular slerp");
@@ -2605,7 +2616,7 @@ static void quat_slerp(const SlerpCase &c, pbt::Ctx &ctx)
   if (nearThr)
     ctx.label("|d| within 1e-5 of 0.9995");
   if (ambiguousSign)
-    ctx.label("|d| <= 16 eps (either arc accepted)");
+    ctx.label("|a.b| <= 16 eps (either arc accepted)");
   const RQ got = toRef(slerp(tf, A, B));
   // regular branch: d, acos, 2 sin, cos, 1 division, 8 products: the error of d is amplified by 1/sin(W) <= 32 in W but
   //   the weights depend on W only through sin(tW)/sin(W), whose W-derivative is t(1-t^2)W/3 + O(W^3) -- in total every
